@@ -9,9 +9,9 @@
    Ties: the sort in NonOverlappingVisibleIntervals is not stable, so every theorem about
    the overlay assumes pairwise distinct (mtime, key) pairs ([NoDup (map key d)]); under
    that assumption the sorted order is unique (c17_sort_irrelevant), whatever sort.Slice does. *)
-From Coq Require Import List NArith Bool Permutation Sorted.
+From Coq Require Import List NArith ZArith Bool Permutation Sorted.
 From SW Require Import model.Chunks proof.ChunksProofs proof.ChunksOverlay proof.ChunksRead proof.ChunksManifest
-  proof.ChunksStream.
+  proof.ChunksStream proof.ChunksCsr proof.ChunksWrap.
 Import ListNotations.
 Local Open Scope N_scope.
 
@@ -122,7 +122,113 @@ Example c17_stream_example :
   stream_content src 1 [] chunks 0 7 = [11;12;0;0;0;21;22] /\
   stream_content src 1 [] chunks 3 6 = [0;0;21;22;0;0] /\
   stream_content src 1 [] chunks 0 max_int64 = [11;12;0;0;0;21;22].
-Proof. vm_compute. repeat split; reflexivity. Qed.
+Proof. exact stream_example. Qed.
+Print Assumptions c17_stream_example.
+
+(* ---- the same for EVERY offset and size up to MaxInt64: Go's int64 sum offset+size wraps when it
+   exceeds MaxInt64; the repaired ViewFromChunks / ViewFromVisibleIntervals / StreamContent then mean
+   "to the end" (model: clamp_stop, view_from_chunks_w, stream_content_w).  No wrap hypothesis. ---- *)
+Theorem c17_stream_content_w : forall src fuel ms chunks d m off size,
+  off <= max_int64 -> size <= max_int64 ->
+  resolve fuel ms off (clamp_stop off size) chunks = Some (d, m) -> NoDup (map key d) ->
+  (forall c, In c d -> N.of_nat (length (src (c_fid c))) = c_size c) ->
+  ((size =? max_int64) || (max_int64 <? off + size) = true -> forall c, In c d -> c_stop c <= total_size chunks) ->
+  total_size chunks <= max_int64 ->
+  let stop := if (size =? max_int64) || (max_int64 <? off + size) then total_size chunks else off + size in
+  stream_content_w src fuel ms chunks off size = map (overlay src d) (nrange off stop).
+Proof. exact stream_content_w_spec. Qed.
+Print Assumptions c17_stream_content_w.
+
+(* without a wrap the wrap-aware functions are the ones of the theorems above *)
+Theorem c17_views_nowrap : forall fuel ms chunks off size, off + size <= max_int64 ->
+  view_from_chunks_w fuel ms chunks off size = view_from_chunks fuel ms chunks off size.
+Proof. exact view_from_chunks_w_nowrap. Qed.
+Print Assumptions c17_views_nowrap.
+
+(* the audit's wrap witnesses: StreamContent(3, MaxInt64) and windows ending one past MaxInt64 *)
+Example c17_stream_wrap_example :
+  let chunks := [Chunk 1 0 2 1 false; Chunk 2 5 2 2 false] in
+  let src := fun f => match f with 1 => [11;12] | 2 => [21;22] | _ => [] end in
+  stream_content_w src 1 [] chunks 3 max_int64 = [0;0;21;22] /\
+  stream_content_w src 1 [] chunks 6 (max_int64 - 5) = [22] /\
+  view_from_chunks_w 1 [] chunks 6 (max_int64 - 3) = [View 2 1 1 6 2].
+Proof. exact stream_wrap_example. Qed.
+Print Assumptions c17_stream_wrap_example.
+
+(* ---- ReadAll (with the hole repair): the overlay of [0, E), and no chunk has a byte at or after E ---- *)
+Theorem c17_read_all : forall src fuel ms chunks d m,
+  resolve fuel ms 0 max_int64 chunks = Some (d, m) -> NoDup (map key d) ->
+  (forall c, In c d -> N.of_nat (length (src (c_fid c))) = c_size c) ->
+  exists E, read_all src fuel ms chunks = map (overlay src d) (nrange 0 E) /\
+            (forall p, E <= p -> p < max_int64 -> overlay_src d p = None).
+Proof. exact read_all_spec. Qed.
+Print Assumptions c17_read_all.
+
+(* ---- ChunkStreamReader (stream.go; readers of the filer's log files) was NOT repaired.
+   FULL statement (every sequence of Reads on a fresh reader delivers the overlay of
+   [0, TotalSize)) is FALSE — known finding 0: a hole is dropped; Seek(5) inside the file fails ---- *)
+Theorem c17_stream_reader_refuted :
+  exists src chunks wants,
+    resolve 1 [] 0 max_int64 chunks = Some (chunks, []) /\ NoDup (map key chunks) /\
+    (forall c, In c chunks -> N.of_nat (length (src (c_fid c))) = c_size c) /\
+    map (overlay src chunks) (nrange 0 (total_size chunks)) = [11;12;0;0;0;21;22] /\
+    csr_run src (view_from_chunks 1 [] chunks 0 max_int64) csr_new wants = Some [11;12;21;22] /\
+    (exists s', csr_seek src (view_from_chunks 1 [] chunks 0 max_int64) csr_new 5 0 = (5%Z, true, s')).
+Proof. exact csr_stream_refuted. Qed.
+Print Assumptions c17_stream_reader_refuted.
+
+(* PARTIAL, under the decidable hypothesis "the views are contiguous from offset 0" (no hole): EVERY
+   sequence of Read calls (any buffer sizes) delivers the overlay of [0, E) in order, never panics,
+   and E is the end of the content *)
+Theorem c17_stream_reader_partial : forall src fuel ms chunks d m,
+  resolve fuel ms 0 max_int64 chunks = Some (d, m) -> NoDup (map key d) ->
+  (forall c, In c d -> N.of_nat (length (src (c_fid c))) = c_size c) ->
+  let V := view_from_chunks fuel ms chunks 0 max_int64 in
+  views_gapless 0 V = true ->
+  exists E,
+    (forall wants, csr_run src V csr_new wants =
+                   Some (firstn (fold_right Nat.add 0%nat wants) (map (overlay src d) (nrange 0 E)))) /\
+    (forall p, E <= p -> p < max_int64 -> overlay_src d p = None).
+Proof. exact csr_stream_partial. Qed.
+Print Assumptions c17_stream_reader_partial.
+
+(* each single Read, from any reader state with a non-negative buffer position: the next bytes of what
+   is left, io.EOF iff fewer than asked were left *)
+Theorem c17_stream_reader_read : forall src views s want, (0 <= cs_bpos s)%Z ->
+  exists s', csr_read src views s want =
+      CsrOk (firstn want (csr_rest src views s)) (length (csr_rest src views s) <? want)%nat s' /\
+    (0 <= cs_bpos s')%Z /\ csr_rest src views s' = skipn want (csr_rest src views s).
+Proof. exact csr_read_spec. Qed.
+Print Assumptions c17_stream_reader_read.
+
+(* known finding 1: Seek to the END of a hole-free file, then Read: the first bytes of the file
+   instead of io.EOF *)
+Theorem c17_stream_seek_refuted :
+  exists src chunks,
+    resolve 1 [] 0 max_int64 chunks = Some (chunks, []) /\ NoDup (map key chunks) /\
+    views_gapless 0 (view_from_chunks 1 [] chunks 0 max_int64) = true /\ total_size chunks = 4 /\
+    let V := view_from_chunks 1 [] chunks 0 max_int64 in
+    let '(pos, err, s') := csr_seek src V csr_new 4 0 in
+    pos = 4%Z /\ err = false /\ exists s'', csr_read src V s' 2 = CsrOk [11;12] false s''.
+Proof. exact csr_seek_refuted. Qed.
+Print Assumptions c17_stream_seek_refuted.
+
+(* PARTIAL: Seek(off, io.SeekStart) strictly inside a hole-free file (off < E), on a reader whose
+   buffer is empty (a fresh one in particular): no error, and every following sequence of Reads
+   delivers the overlay of [off, E) *)
+Theorem c17_stream_seek_partial : forall src fuel ms chunks d m s off,
+  resolve fuel ms 0 max_int64 chunks = Some (d, m) -> NoDup (map key d) ->
+  (forall c, In c d -> N.of_nat (length (src (c_fid c))) = c_size c) ->
+  let V := view_from_chunks fuel ms chunks 0 max_int64 in
+  views_gapless 0 V = true -> csr_empty s = true ->
+  exists E, off < E ->
+    (let '(pos, err, s') := csr_seek src V s (Z.of_N off) 0 in
+     pos = Z.of_N off /\ err = false /\
+     forall wants, csr_run src V s' wants =
+                   Some (firstn (fold_right Nat.add 0%nat wants) (map (overlay src d) (nrange off E)))) /\
+    (forall p, E <= p -> p < max_int64 -> overlay_src d p = None).
+Proof. exact csr_seek_partial. Qed.
+Print Assumptions c17_stream_seek_partial.
 
 (* FileSize(entry) >= TotalSize(chunks) gives the file-size hypothesis *)
 Theorem c17_total_size : forall l c, In c l -> c_stop c <= total_size l.
@@ -138,6 +244,31 @@ Theorem c17_compact_same : forall f ms chunks,
   forall p, overlay_src (fst (compact_file_chunks (S f) ms chunks)) p = overlay_src chunks p.
 Proof. exact compact_same. Qed.
 Print Assumptions c17_compact_same.
+
+(* without the [c_manifest = false] hypothesis the statement is FALSE — known finding 2:
+   CompactFileChunks on a list that still holds a manifest chunk puts the manifest (and so all the
+   content it lists) into the garbage.  Trigger: existsb c_manifest chunks *)
+Theorem c17_compact_manifest_refuted :
+  exists ms chunks d m,
+    resolve 2 ms 0 max_int64 chunks = Some (d, m) /\ NoDup (map key d) /\
+    existsb c_manifest chunks = true /\
+    compact_file_chunks 2 ms chunks = ([], chunks) /\
+    overlay_src d 0 <> None /\
+    compact_entry 2 ms chunks = (chunks, []).
+Proof. exact compact_manifest_refuted. Qed.
+Print Assumptions c17_compact_manifest_refuted.
+
+(* PARTIAL / what both callers do (SeparateManifestChunks, compact the data chunks, put the manifest
+   chunks back): for ANY entry, manifests included, no chunk is lost and the overlay of the top-level
+   data chunks is unchanged *)
+Theorem c17_compact_entry : forall f ms chunks,
+  Forall (fun c => c_stop c <= max_int64) chunks ->
+  NoDup (map key (filter (fun c => negb (c_manifest c)) chunks)) ->
+  Permutation (fst (compact_entry (S f) ms chunks) ++ snd (compact_entry (S f) ms chunks)) chunks /\
+  forall p, overlay_src (filter (fun c => negb (c_manifest c)) (fst (compact_entry (S f) ms chunks))) p =
+            overlay_src (filter (fun c => negb (c_manifest c)) chunks) p.
+Proof. exact compact_entry_same. Qed.
+Print Assumptions c17_compact_entry.
 
 (* ---- manifest conversion (any merge factor, any window) resolves to the same data chunks ---- *)
 Theorem c17_manifest_same : forall k next mt chunks fuel ms s e d m,
@@ -182,8 +313,5 @@ Example c17_example :
   rr_buf r = [10;11;12;13;22;23;31;32;0;0;0;0;50;51;0;238;238] /\ rr_n r = 15 /\ rr_eof r = true /\
   fst (compact_file_chunks 1 [] [b; c; d0; a; z]) = [b; c; a; z] /\
   fst (maybe_manifestize 2 100 9 chunks) = [outer; Chunk 100 0 14 9 true].
-Proof.
-  cbv zeta. split; [vm_compute; reflexivity|]. split.
-  - repeat (constructor; [simpl; intuition discriminate|]). constructor.
-  - vm_compute. repeat split; reflexivity.
-Qed.
+Proof. exact nested_example. Qed.
+Print Assumptions c17_example.
